@@ -5,7 +5,7 @@ From Coq Require Import List NArith ZArith Bool.
 From Dials Require Import Base.Outcome Base.Runes Reflect.Ty Transform.RType Transform.MAlias
   Transform.MFlatten Transform.MOthers Transform.Manglers Transform.Transformer
   Transform.WellFormed Transform.TransformerProofs Transform.AliasProofs Transform.ManglerProofs
-  Transform.EmptyProofs.
+  Transform.EmptyProofs Transform.FlattenProofs.
 Import ListNotations.
 
 (* ReverseTranslate's running offset against what TranslateType recorded, for
@@ -43,6 +43,19 @@ Proof.
   - now apply alias_neither.
   - now apply alias_both.
 Qed.
+
+(* flatten, one field, ANY filling: from the values written to the flattened
+   fields (typed as those fields) Unmangle rebuilds a value whose leaves, read
+   back depth first (read_ty: below a nil struct pointer every leaf is unset),
+   are exactly those values - nothing else is set - and no parent is allocated
+   when none of them is set *)
+Theorem flatten_lossless : forall tag te f outs (fvs : list fvt) xs,
+  wf_sf f = true -> flatten_mangle tag 0 te f = Ok outs ->
+  length xs = length outs -> map snd fvs = combine (map sf_ty outs) xs ->
+  exists v, flatten_unmangle (Some f) fvs = Ok (sf_ty f, v) /\
+            read_ty (sf_ty f) v = xs /\
+            (forallb is_vnil xs = true -> v = VNil).
+Proof. exact flatten_lossless_l. Qed.
 
 (* the remaining one-to-one manglers keep one field per field *)
 Theorem one_to_one_manglers : forall m sf outs, one_to_one m = true -> mangle m sf = Ok outs ->
@@ -112,6 +125,7 @@ Proof. exact reverse_type_exact_l. Qed.
 Print Assumptions offsets_partition.
 Print Assumptions layer_is_pointwise.
 Print Assumptions alias_lossless.
+Print Assumptions flatten_lossless.
 Print Assumptions one_to_one_manglers.
 Print Assumptions tag_manglers_lossless.
 Print Assumptions strcast_lossless.
